@@ -38,6 +38,7 @@ type HarnessCfg struct {
 	Pkg      string             `json:"pkg"`
 	Solver   string             `json:"solver"`
 	IntMode  bool               `json:"intmode"`
+	Sched    bool               `json:"sched"`
 	Preempt  int                `json:"preempt"`
 	Reach    []string           `json:"reach_required"`
 	Tiers    map[string]TierCfg `json:"tiers"`
@@ -150,7 +151,7 @@ func (c *checker) buildReplayBinary(pkg string, sched bool) (string, error) {
 	os.WriteFile(testFile, []byte(fmt.Sprintf(replayTestTemplate, pkg)), 0o644)
 	ov[filepath.Join(c.repo, pkg, "zz_verif_replay_test.go")] = testFile
 	if sched {
-		inst, err := instrumentForSchedule(c.repo, pkg, c.work)
+		inst, err := instrumentForSchedule(c.repo, pkg, c.work, c.extra)
 		if err != nil {
 			return "", err
 		}
@@ -418,7 +419,16 @@ func cmdCheck(args []string) int {
 	var wits []*wrec
 	paramsOf := map[string]map[string]int{}
 	for _, j := range jobsList {
-		paramsOf[j.h.Name] = j.t.Params
+		ps := map[string]int{}
+		for k, v := range j.t.Params {
+			ps[k] = v
+		}
+		pre := j.h.Preempt
+		if j.t.Preempt != nil {
+			pre = *j.t.Preempt
+		}
+		ps["preempt"] = pre
+		paramsOf[j.h.Name] = ps
 	}
 	seenV := map[string]bool{}
 	n := 0
@@ -433,18 +443,18 @@ func cmdCheck(args []string) int {
 				n++
 				f := filepath.Join(replayDir, fmt.Sprintf("v%03d_%s.json", n, name))
 				rec := map[string]any{"property": prop, "harness": v.Harness, "scenario": v.Scenario, "assertion": v.Label, "kind": v.Kind,
-					"panic_site": v.PanicSite, "inputs": v.Inputs, "schedule": v.Schedule, "params": paramsOf[name], "engine": map[string]any{"path": v.Path, "detail": v.Detail}}
+					"panic_site": v.PanicSite, "inputs": v.Inputs, "schedule": v.Schedule, "params": paramsOf[name], "sched": hr.cfg.Sched, "engine": map[string]any{"path": v.Path, "detail": v.Detail}}
 				b, _ := json.MarshalIndent(rec, "", " ")
 				os.WriteFile(f, b, 0o644)
-				viols = append(viols, &vrec{v: v, pkg: hr.cfg.Pkg, file: f, sched: len(v.Schedule) > 0})
+				viols = append(viols, &vrec{v: v, pkg: hr.cfg.Pkg, file: f, sched: hr.cfg.Sched})
 			}
 			for _, w := range r.Witnesses {
 				n++
 				f := filepath.Join(work, fmt.Sprintf("w%03d_%s.json", n, name))
-				rec := map[string]any{"harness": w.Harness, "scenario": w.Scenario, "inputs": w.Inputs, "schedule": w.Schedule, "params": paramsOf[name]}
+				rec := map[string]any{"harness": w.Harness, "scenario": w.Scenario, "inputs": w.Inputs, "schedule": w.Schedule, "params": paramsOf[name], "sched": hr.cfg.Sched}
 				b, _ := json.MarshalIndent(rec, "", " ")
 				os.WriteFile(f, b, 0o644)
-				wits = append(wits, &wrec{w: w, pkg: hr.cfg.Pkg, file: f, sched: len(w.Schedule) > 0})
+				wits = append(wits, &wrec{w: w, pkg: hr.cfg.Pkg, file: f, sched: hr.cfg.Sched})
 			}
 		}
 	}
@@ -756,6 +766,7 @@ func cmdReplay(args []string) int {
 	var rec struct {
 		Harness  string `json:"harness"`
 		Schedule []int  `json:"schedule"`
+		Sched    bool   `json:"sched"`
 	}
 	if err := loadJSON(file, &rec); err != nil {
 		fmt.Fprintln(os.Stderr, err)
@@ -776,7 +787,7 @@ func cmdReplay(args []string) int {
 	if gf, err := genModel(*repo, work, c.extra); err == nil {
 		c.extra[filepath.Join(*repo, "model", "zz_verif_gen_model.go")] = gf
 	}
-	bin, err := c.buildReplayBinary(pkg, len(rec.Schedule) > 0)
+	bin, err := c.buildReplayBinary(pkg, rec.Sched)
 	if err != nil {
 		fmt.Fprintln(os.Stderr, err)
 		return 2
